@@ -64,22 +64,29 @@ def table_oracle(prog, obs):
                 continue
             if 'error' in tb:
                 continue        # (a table that cannot be shown states nothing; not this property's subject)
+            prec = tb.get('__precisions__') or prec
             for key, cells in tb.items():
-                if key == 'Total' or key not in byid or key not in d['cont']:
+                if key in ('Total', '__precisions__') or key not in byid or key not in d['cont']:
                     continue
-                for cell, base in zip(cells, ('L', 'g', 'mol', 'U')):
-                    if cell == '-' or ' ' not in cell:
+                for cell in cells:
+                    # a cell is read by what it says (a number and a unit), not by the column it stands in
+                    if cell == '-' or cell.count(' ') != 1:
                         continue
                     val, unit = cell.split(' ')
-                    pfx = unit[:-len(base)]
-                    if not unit.endswith(base) or pfx not in dsl.PFX:
+                    base = next((b for b in ('mol', 'U', 'L', 'g') if unit.endswith(b) and unit[:-len(b)] in dsl.PFX), None)
+                    try:
+                        shown = F(val)
+                    except ValueError:
                         continue
+                    if base is None:
+                        continue
+                    pfx = unit[:-len(base)]
                     true = histcheck.amount_in(byid[key], d['cont'][key], base)
-                    shown = F(val) * dsl.PFX[pfx][1]
-                    if abs(shown - true) > F(51, 100) * F(10) ** (-prec.get(unit, 3)) * dsl.PFX[pfx][1] + abs(true) * F(1, 10**9):
+                    shown = shown * dsl.PFX[pfx][1]
+                    if abs(shown - true) > F(51, 100) * F(10) ** (-prec.get(unit, prec.get('default', 3))) * dsl.PFX[pfx][1] + abs(true) * F(1, 10**9):
                         fails.append((i, f"the table of the container returned by {op['op']} (variable {v}) shows {cell} for substance {key}, "
                                          f"the container holds {float(true)!r} {base}"))
-            if any(k != 'Total' and k not in d['cont'] for k in tb):
+            if any(k not in ('Total', '__precisions__') and k not in d['cont'] for k in tb):
                 fails.append((i, f"the table of the container returned by {op['op']} lists a substance the container does not hold"))
             if any(k not in tb for k in d['cont'] if k in byid) and len(set(s['name'] for s in prog['subs'])) == len(prog['subs']):
                 fails.append((i, f"the table of the container returned by {op['op']} (variable {v}) omits a substance the container holds"))
